@@ -375,12 +375,21 @@ fn c09_split_merge__n8_g4() {
 // C06 — znx_fill_uniform_ref / vec_znx_fill_uniform_ref on a symbolic tape (see kx/hal/lib.rs): range, bijection on the
 // low b bits, exactly one draw per coefficient, column order of a multi-limb fill (the order C19's decompression relies on).
 // ------------------------------------------------------------------------------------------------
-static mut TAPE: [u64; 8] = [0; 8];
+static mut TAPE: [u64; 16] = [0; 16];
 static mut DRAWS: usize = 0;
+static mut LAST_SEED: [u8; 32] = [0; 32];
+// Source::new runs CPU-feature detection (inline asm cpuid: unsupported by Kani); with the stream abstracted to the symbolic
+// tape the generator state is irrelevant, so construction is abstracted to "remember the seed".
+fn source_new_stub(seed: [u8; 32]) -> poulpy_hal::source::Source {
+    unsafe {
+        LAST_SEED = seed;
+        core::mem::zeroed()
+    }
+}
 fn tape_next_u64(_rng: &mut rand_chacha::ChaCha8Rng) -> Result<u64, core::convert::Infallible> {
     unsafe {
         let v: u64 = kani::any();
-        if DRAWS < 8 {
+        if DRAWS < 16 {
             TAPE[DRAWS] = v;
         }
         DRAWS += 1;
@@ -391,6 +400,7 @@ fn tape_next_u64(_rng: &mut rand_chacha::ChaCha8Rng) -> Result<u64, core::conver
 #[kani::proof]
 #[kani::unwind(6)]
 #[kani::stub(<rand_chacha::ChaCha8Rng as rand_core::TryRng>::try_next_u64, tape_next_u64)]
+#[kani::stub(poulpy_hal::source::Source::new, source_new_stub)]
 fn c06_vec_znx_fill_uniform_ref__n2_size2() {
     use crate::reference::vec_znx::vec_znx_fill_uniform_ref;
     use poulpy_hal::layouts::{VecZnx, ZnxView, ZnxViewMut};
@@ -422,4 +432,371 @@ fn c06_vec_znx_fill_uniform_ref__n2_size2() {
             j += 1;
         }
     }
+}
+
+// ------------------------------------------------------------------------------------------------
+// C07 — NTT120 scalar conversions (the prime set the backend uses: Primes30), per coefficient (nn = 1), full i64 / u64 domain.
+// Loops over k < 4 are constant => fully unwound => complete.
+// ------------------------------------------------------------------------------------------------
+mod c07 {
+    use crate::reference::ntt120::arithmetic::*;
+    use crate::reference::ntt120::primes::{PrimeSet, Primes30};
+
+    #[kani::proof]
+    #[kani::unwind(6)]
+    fn c07_b_from_znx64_residues() {
+        let x: i64 = kani::any();
+        let mut res = [0u64; 4];
+        b_from_znx64_ref::<Primes30>(1, &mut res, &[x]);
+        let mut k = 0;
+        while k < 4 {
+            let q = Primes30::Q[k] as i128;
+            assert!((res[k] as i128 - x as i128).rem_euclid(q) == 0, "C07:b_from_znx64: res[k] == x (mod Q[k])");
+            assert!(res[k] < (1u64 << 63) + (Primes30::Q[k] as u64), "C07:b_from_znx64: lazy range < 2^63 + Q");
+            k += 1;
+        }
+    }
+
+    #[kani::proof]
+    #[kani::unwind(6)]
+    fn c07_b_from_znx64_masked_residues() {
+        let x: i64 = kani::any();
+        let mask: i64 = kani::any();
+        let mut res = [0u64; 4];
+        b_from_znx64_masked_ref::<Primes30>(1, &mut res, &[x], mask);
+        let mut res2 = [0u64; 4];
+        b_from_znx64_ref::<Primes30>(1, &mut res2, &[x & mask]);
+        assert!(res[0] == res2[0] && res[1] == res2[1] && res[2] == res2[2] && res[3] == res2[3], "C07:masked conversion == conversion of the masked value");
+    }
+
+    #[kani::proof]
+    #[kani::unwind(6)]
+    fn c07_c_from_znx64_residues() {
+        let x: i64 = kani::any();
+        let mut res = [0u32; 8];
+        c_from_znx64_ref::<Primes30>(1, &mut res, &[x]);
+        let mut k = 0;
+        while k < 4 {
+            let q = Primes30::Q[k] as i128;
+            let r = (x as i128).rem_euclid(q);
+            assert!(res[2 * k] as i128 == r, "C07:c_from_znx64: low word == x mod Q[k]");
+            assert!(res[2 * k + 1] as i128 == (r << 32) % q, "C07:c_from_znx64: high word == (x mod Q) * 2^32 mod Q");
+            k += 1;
+        }
+    }
+
+    #[kani::proof]
+    #[kani::unwind(6)]
+    fn c07_c_from_b_consistent() {
+        let xb: [u64; 4] = kani::any();
+        let mut res = [0u32; 8];
+        c_from_b_ref::<Primes30>(1, &mut res, &xb);
+        let mut k = 0;
+        while k < 4 {
+            let q = Primes30::Q[k] as u64;
+            assert!(res[2 * k] as u64 == xb[k] % q && res[2 * k + 1] as u64 == ((xb[k] % q) << 32) % q, "C07:c_from_b residues");
+            k += 1;
+        }
+    }
+
+    #[kani::proof]
+    #[kani::unwind(6)]
+    fn c07_add_bbb_no_overflow_and_residues() {
+        let x: [u64; 4] = kani::any();
+        let y: [u64; 4] = kani::any();
+        let mut res = [0u64; 4];
+        add_bbb_ref::<Primes30>(1, &mut res, &x, &y);
+        let mut k = 0;
+        while k < 4 {
+            let q = Primes30::Q[k] as u128;
+            assert!((res[k] as u128) % q == ((x[k] as u128) + (y[k] as u128)) % q, "C07:add_bbb: res == x + y (mod Q[k])");
+            k += 1;
+        }
+    }
+
+    /// CRT: reconstruct(residues(x)) == x for every i64 (symmetric representative) — the 128-bit one (thorough tier)
+    #[kani::proof]
+    #[kani::unwind(6)]
+    fn c07_crt_round_trip_i64() {
+        let x: i64 = kani::any();
+        let mut b = [0u64; 4];
+        b_from_znx64_ref::<Primes30>(1, &mut b, &[x]);
+        let mut out = [0i128; 1];
+        b_to_znx128_ref::<Primes30>(1, &mut out, &b);
+        assert!(out[0] == x as i128, "C07:b_to_znx128(b_from_znx64(x)) == x");
+    }
+}
+
+
+// ------------------------------------------------------------------------------------------------
+// C19 — decompression regenerates the mask columns from the stored seed in the order the encryption fills them
+// (columns 1..=rank, one stream, limb by limb), copies the body, and ignores the receiver's prior contents.
+// Bounded: N = 2, rank = 2, size = 2; the ChaCha8 stream is the symbolic tape (every draw independent).
+// ------------------------------------------------------------------------------------------------
+#[kani::proof]
+#[kani::unwind(34)]
+#[kani::stub(alloc::fmt::format, fmt_stub)]
+#[kani::stub(<rand_chacha::ChaCha8Rng as rand_core::TryRng>::try_next_u64, tape_next_u64)]
+#[kani::stub(poulpy_hal::source::Source::new, source_new_stub)]
+fn c19_glwe_decompress_mask_order__n2_rank2_size2() {
+    use poulpy_core::layouts::{GLWECompressed, GLWEDecompress, GLWE};
+    use poulpy_hal::layouts::{FillUniform, Module, ZnxView, ZnxViewMut};
+    use poulpy_hal::source::Source;
+    const B: usize = 8;
+    let module: Module<crate::FFT64Ref> = Module::new_marker(2);
+    let mut comp: GLWECompressed<Vec<u8>> = GLWECompressed::alloc(2u32.into(), (B as u32).into(), (2 * B as u32).into(), 2u32.into());
+    // body <- 4 symbolic draws (FillUniform for GLWECompressed, 63-bit values), so that the harness knows its contents
+    let mut s0 = Source::new([1u8; 32]);
+    comp.fill_uniform(63, &mut s0);
+    unsafe { assert!(DRAWS == 4, "C19:body filled from 4 draws"); }
+    let seed: [u8; 32] = kani::any();
+    {
+        use poulpy_core::layouts::GLWECompressedSeedMut;
+        *comp.seed_mut() = seed;
+    }
+    let mut res: GLWE<Vec<u8>> = GLWE::alloc(2u32.into(), (B as u32).into(), (2 * B as u32).into(), 2u32.into());
+    for x in res.data_mut().raw_mut().iter_mut() {
+        *x = kani::any(); // stale receiver contents must not matter
+    }
+    module.decompress_glwe(&mut res, &comp);
+    let half: i64 = 1i64 << (B - 1);
+    let mask: u64 = (1u64 << B) - 1;
+    unsafe {
+        assert!(DRAWS == 4 + 8, "C19:mask regeneration consumes exactly rank*size*N draws");
+        let mut q = 0;
+        while q < 32 {
+            assert!(LAST_SEED[q] == seed[q], "C19:the mask stream is seeded by the seed stored in the compressed object");
+            q += 1;
+        }
+        let mut j = 0;
+        while j < 2 {
+            let mut k = 0;
+            while k < 2 {
+                let body = ((TAPE[2 * j + k] << 1) as i64) >> 1;
+                assert!(res.data().at(0, j)[k] == body, "C19:column 0 is the stored body");
+                let mut i = 1;
+                while i <= 2 {
+                    let t = 4 + ((i - 1) * 2 + j) * 2 + k; // column-major over mask columns, then limb, then coefficient
+                    assert!(res.data().at(i, j)[k] == ((TAPE[t] & mask) as i64) - half, "C19:mask column i, limb j, coeff k == draw (i-1)*size*N + j*N + k");
+                    i += 1;
+                }
+                k += 1;
+            }
+            j += 1;
+        }
+    }
+}
+
+// ------------------------------------------------------------------------------------------------
+// C02 — noise-free GLWE operations act column-wise exactly as the ring operation (hence commute with the phase map for
+// every key).  Real trait default methods of poulpy-core/src/api/operations.rs on a marker module (no DFT handle is used),
+// limb contents symbolic within the no-overflow domain; shapes enumerated (bounded): N = 2 or 4, ranks 0..2, sizes 1..2.
+// ------------------------------------------------------------------------------------------------
+mod c02 {
+    use super::fmt_stub;
+    use poulpy_core::layouts::GLWE;
+    use poulpy_core::{GLWEAdd, GLWECopy, GLWEMulXpMinusOne, GLWENegate, GLWERotate, GLWESub};
+    use poulpy_hal::api::{ScratchOwnedAlloc, ScratchOwnedBorrow};
+    use poulpy_hal::layouts::{Module, ScratchOwned, ZnxView, ZnxViewMut};
+    type BE = crate::FFT64Ref;
+    const B2K: u32 = 8;
+
+    fn glwe(n: usize, rank: u32, size: u32, bound: i64) -> GLWE<Vec<u8>> {
+        let mut g: GLWE<Vec<u8>> = GLWE::alloc((n as u32).into(), B2K.into(), (B2K * size).into(), rank.into());
+        for x in g.data_mut().raw_mut().iter_mut() {
+            *x = kani::any();
+            kani::assume(*x >= -bound && *x <= bound);
+        }
+        g
+    }
+    // coefficient j of X^p * a in Z[X]/(X^n+1)
+    fn rot(a: &[i64], p: i64, j: usize) -> i64 {
+        let n = a.len() as i64;
+        let k = (j as i64 - p).rem_euclid(2 * n);
+        if k < n { a[k as usize] } else { -a[(k - n) as usize] }
+    }
+
+    /// add / sub with a shorter and lower-rank second operand, garbage in the result
+    fn add_sub<const RA: u32, const RB: u32>() {
+        const N: usize = 2;
+        let module: Module<BE> = Module::new_marker(N as u64);
+        let a = glwe(N, RA, 2, 1 << 61);
+        let b = glwe(N, RB, 1, 1 << 61);
+        let rr = if RA > RB { RA } else { RB };
+        let mut r = glwe(N, rr, 2, i64::MAX);
+        let mut s = glwe(N, rr, 2, i64::MAX);
+        module.glwe_add_into(&mut r, &a, &b);
+        module.glwe_sub(&mut s, &a, &b);
+        let mut col = 0usize;
+        while col <= rr as usize {
+            let mut k = 0;
+            while k < N {
+                let a0 = if col <= RA as usize { a.data().at(col, 0)[k] } else { 0 };
+                let a1 = if col <= RA as usize { a.data().at(col, 1)[k] } else { 0 };
+                let b0 = if col <= RB as usize { b.data().at(col, 0)[k] } else { 0 };
+                assert!(r.data().at(col, 0)[k] == a0 + b0 && r.data().at(col, 1)[k] == a1, "C02:glwe_add_into column-wise, size/rank rule");
+                assert!(s.data().at(col, 0)[k] == a0 - b0 && s.data().at(col, 1)[k] == a1, "C02:glwe_sub column-wise, size/rank rule");
+                k += 1;
+            }
+            col += 1;
+        }
+    }
+    #[kani::proof]
+    #[kani::unwind(8)]
+    #[kani::stub(alloc::fmt::format, fmt_stub)]
+    fn c02_glwe_add_sub__ranks_1_1() { add_sub::<1, 1>(); }
+    #[kani::proof]
+    #[kani::unwind(8)]
+    #[kani::stub(alloc::fmt::format, fmt_stub)]
+    fn c02_glwe_add_sub__ranks_2_0() { add_sub::<2, 0>(); }
+    #[kani::proof]
+    #[kani::unwind(8)]
+    #[kani::stub(alloc::fmt::format, fmt_stub)]
+    fn c02_glwe_add_sub__ranks_0_1() { add_sub::<0, 1>(); }
+
+    /// in-place add/sub, negate, copy
+    #[kani::proof]
+    #[kani::unwind(8)]
+    #[kani::stub(alloc::fmt::format, fmt_stub)]
+    fn c02_glwe_assign_negate_copy__rank1() {
+        const N: usize = 2;
+        let module: Module<BE> = Module::new_marker(N as u64);
+        let a = glwe(N, 1, 1, 1 << 61);
+        let r0 = glwe(N, 1, 2, 1 << 61);
+        let mut r = r0.clone();
+        module.glwe_add_assign(&mut r, &a);
+        let mut s = r0.clone();
+        module.glwe_sub_assign(&mut s, &a);
+        let mut ng = glwe(N, 1, 2, i64::MAX);
+        module.glwe_negate(&mut ng, &a);
+        let mut cp = glwe(N, 1, 2, i64::MAX);
+        module.glwe_copy(&mut cp, &a);
+        let mut col = 0;
+        while col < 2 {
+            let mut k = 0;
+            while k < N {
+                assert!(r.data().at(col, 0)[k] == r0.data().at(col, 0)[k] + a.data().at(col, 0)[k] && r.data().at(col, 1)[k] == r0.data().at(col, 1)[k], "C02:glwe_add_assign");
+                assert!(s.data().at(col, 0)[k] == r0.data().at(col, 0)[k] - a.data().at(col, 0)[k] && s.data().at(col, 1)[k] == r0.data().at(col, 1)[k], "C02:glwe_sub_assign");
+                assert!(ng.data().at(col, 0)[k] == -a.data().at(col, 0)[k] && ng.data().at(col, 1)[k] == 0, "C02:glwe_negate (extra limbs zero)");
+                assert!(cp.data().at(col, 0)[k] == a.data().at(col, 0)[k] && cp.data().at(col, 1)[k] == 0, "C02:glwe_copy (extra limbs zero)");
+                k += 1;
+            }
+            col += 1;
+        }
+    }
+
+    /// rotation by X^p and multiplication by (X^p - 1), every p in i64, out-of-place and in-place
+    #[kani::proof]
+    #[kani::unwind(10)]
+    #[kani::stub(alloc::fmt::format, fmt_stub)]
+    fn c02_glwe_rotate_mul_xp__n4_rank1() {
+        const N: usize = 4;
+        let module: Module<BE> = Module::new_marker(N as u64);
+        let a = glwe(N, 1, 1, 1 << 61);
+        let p: i64 = kani::any();
+        let mut r = glwe(N, 1, 1, i64::MAX);
+        module.glwe_rotate(p, &mut r, &a);
+        let mut m = glwe(N, 1, 1, i64::MAX);
+        module.glwe_mul_xp_minus_one(p, &mut m, &a);
+        let mut ri = a.clone();
+        let mut scratch: ScratchOwned<BE> = ScratchOwned::alloc(module.glwe_rotate_tmp_bytes());
+        module.glwe_rotate_assign(p, &mut ri, scratch.borrow());
+        let mut col = 0;
+        while col < 2 {
+            let ac = a.data().at(col, 0);
+            let mut j = 0;
+            while j < N {
+                let want = rot(ac, p, j);
+                assert!(r.data().at(col, 0)[j] == want, "C02:glwe_rotate == X^p * a on every column");
+                assert!(ri.data().at(col, 0)[j] == want, "C02:glwe_rotate_assign == X^p * a on every column");
+                assert!(m.data().at(col, 0)[j] == want - ac[j], "C02:glwe_mul_xp_minus_one == (X^p - 1) * a on every column");
+                j += 1;
+            }
+            col += 1;
+        }
+    }
+}
+
+// ------------------------------------------------------------------------------------------------
+// C11 (DFT family) — abstract-kernel (AK) two-run harness on the real FFT64Ref backend: the numeric leaf kernels are
+// replaced by bit-level mixers (their only contract: a deterministic function of exactly the declared input slice,
+// writing exactly the declared output slice); everything above them — limb selection, size rule, zero fill — is the real
+// code.  The real operation is run twice from two independent garbage pre-states of the output: the selected column must
+// be bit-identical, everything else must keep its own pre-state.  Shapes are constants (bounded); data symbolic.
+// ------------------------------------------------------------------------------------------------
+mod c11_ak {
+    use poulpy_hal::api::{ModuleNew, VecZnxDftAlloc, VecZnxDftApply};
+    use poulpy_hal::layouts::{Module, VecZnx, ZnxView, ZnxViewMut};
+    use rand_distr::num_traits::{Float, FloatConst};
+    use std::fmt::Debug;
+    fn fill_stub<R: Float + FloatConst>(_j: R, _omg: &mut [R], pos: usize) -> usize { pos }
+    fn fft_stub<R: Float + FloatConst + Debug>(_m: usize, _omg: &[R], _data: &mut [R]) {}
+    fn from_znx_stub(res: &mut [f64], a: &[i64]) {
+        let mut i = 0;
+        while i < res.len() {
+            res[i] = f64::from_bits(a[i] as u64);
+            i += 1;
+        }
+    }
+
+    fn dft_apply_two_runs<const A_SIZE: usize, const R_SIZE: usize, const STEP: usize, const OFFSET: usize>() {
+        const N: usize = 8;
+        let module: Module<crate::FFT64Ref> = Module::<crate::FFT64Ref>::new(N as u64);
+        let mut a: VecZnx<Vec<u8>> = VecZnx::alloc(N, 1, A_SIZE);
+        for x in a.raw_mut().iter_mut() {
+            *x = kani::any();
+        }
+        let mut r1 = module.vec_znx_dft_alloc(2, R_SIZE);
+        let mut r2 = module.vec_znx_dft_alloc(2, R_SIZE);
+        for x in r1.raw_mut().iter_mut() {
+            *x = f64::from_bits(kani::any());
+        }
+        for x in r2.raw_mut().iter_mut() {
+            *x = f64::from_bits(kani::any());
+        }
+        let col: usize = kani::any();
+        kani::assume(col < 2);
+        // pre-state of the other column, to check the frame
+        let mut other1 = [0u64; N * R_SIZE];
+        let mut j = 0;
+        while j < R_SIZE {
+            let mut k = 0;
+            while k < N {
+                other1[j * N + k] = r1.at(1 - col, j)[k].to_bits();
+                k += 1;
+            }
+            j += 1;
+        }
+        module.vec_znx_dft_apply(STEP, OFFSET, &mut r1, col, &a, 0);
+        module.vec_znx_dft_apply(STEP, OFFSET, &mut r2, col, &a, 0);
+        let mut j = 0;
+        while j < R_SIZE {
+            let mut k = 0;
+            while k < N {
+                assert!(r1.at(col, j)[k].to_bits() == r2.at(col, j)[k].to_bits(), "C11:selected output column independent of prior contents (every limb written or zero-filled)");
+                assert!(r1.at(1 - col, j)[k].to_bits() == other1[j * N + k], "C11:other column untouched");
+                k += 1;
+            }
+            j += 1;
+        }
+    }
+
+    macro_rules! ak_dft_apply {
+        ($name:ident, $a:expr, $r:expr, $s:expr, $o:expr) => {
+            #[kani::proof]
+            #[kani::unwind(26)]
+            #[kani::stub(alloc::fmt::format, super::fmt_stub)]
+            #[kani::stub(crate::reference::fft64::reim::table_fft::fill_fft4_omegas, fill_stub)]
+            #[kani::stub(crate::reference::fft64::reim::table_ifft::fill_ifft4_omegas, fill_stub)]
+            #[kani::stub(crate::reference::fft64::reim::fft_ref::fft_ref, fft_stub)]
+            #[kani::stub(crate::reference::fft64::reim::conversion::reim_from_znx_i64_ref, from_znx_stub)]
+            fn $name() {
+                dft_apply_two_runs::<$a, $r, $s, $o>();
+            }
+        };
+    }
+    ak_dft_apply!(c11_ak_dft_apply__a3_r2_step2_off1, 3, 2, 2, 1);
+    ak_dft_apply!(c11_ak_dft_apply__a2_r3_step1_off0, 2, 3, 1, 0);
+    ak_dft_apply!(c11_ak_dft_apply__a3_r3_step2_off0, 3, 3, 2, 0);
+    ak_dft_apply!(c11_ak_dft_apply__a2_r2_step1_off1, 2, 2, 1, 1);
 }
